@@ -38,6 +38,8 @@ var preludeDecls = []preludeDecl{
 	{"fn_app_ss", "(declare-fun fn_app_ss (Int String) String)", nil},
 	{"str_itoa", "(declare-fun str_itoa (Int) String)", nil},
 	{"str_padright", "(declare-fun str_padright (String Int) String)\n(assert (forall ((s String) (n Int)) (! (str.prefixof s (str_padright s n)) :pattern ((str_padright s n)))))", nil},
+	{"ws_count", "(declare-fun ws_count (String) Int)", nil},
+	{"ws_words", "(declare-fun ws_words (String) (Array Int String))", nil},
 	{"os_getenv", "(declare-fun os_getenv (String) String)", nil},
 	{"path_base", "(declare-fun path_base (String) String)", nil},
 	{"rune_count", "(declare-fun rune_count (String) Int)\n(assert (forall ((s String)) (! (and (<= 0 (rune_count s)) (<= (rune_count s) (str.len s)) (= (= (rune_count s) 0) (= s \"\"))) :pattern ((rune_count s)))))", nil},
